@@ -177,6 +177,12 @@ func init() {
 		}
 	}
 	fileTwinWrap = func() {
+		if orig := props["C05"]; orig != nil && c05CliHook != nil {
+			props["C05"] = func(run *Run, n int) {
+				c05CliHook(run, n)
+				orig(run, n)
+			}
+		}
 		wrap("C02", false, "diff")
 		wrap("C10", false, "patch")
 		wrap("C12", false, "merge")
